@@ -114,11 +114,14 @@ class Substitutor(SchemaVisitor[GenericSchema]):
         if len(value) > 0 and all(is_ellipsis(x) for x in value):
             raise SubstitutionError("Can't substitute all ...")
 
+        if schema.props.elements is Nil:
+            # the result is an element list: `...` between two elements cannot be declared
+            if any(is_ellipsis(val) for val in value[1:-1]):
+                raise SubstitutionError("`...` must be first or last element")
+
         if (schema.props.elements is Nil) and (schema.props.type is Nil):
             elements = []
-            for index, val in enumerate(value):
-                if is_ellipsis(val) and (0 < index < len(value) - 1):
-                    raise SubstitutionError("`...` must be first or last element")
+            for val in value:
                 element = val if is_ellipsis(val) else self._from_native(val)
                 elements.append(element)
             return schema.__class__(schema.props.update(elements=elements))
